@@ -992,7 +992,7 @@ class LogixDriver(CIPDriver):
             return_size = (
                 _tag_return_size(tag_data) + len(request.message) + 2
             )  # response overhead  # TODO make const
-            if return_size > self.connection_size:
+            if return_size + MULTISERVICE_READ_OVERHEAD > self.connection_size:
                 request = ReadTagFragmentedRequestPacket.from_request(self._sequence, request)
                 fragmented_requests.append(request)
             else:
@@ -1034,6 +1034,7 @@ class LogixDriver(CIPDriver):
                 self._cfg["use_instance_ids"],
             )
 
+            request.build_message()
             return_size = _tag_return_size(parsed_tag) + len(request.message)
             if return_size > self.connection_size:
                 request = ReadTagFragmentedRequestPacket.from_request(self._sequence, request)
@@ -1162,7 +1163,7 @@ class LogixDriver(CIPDriver):
                 request._msg_setup = False
 
                 req_size = len(request.message)
-                if req_size > self.connection_size:
+                if req_size + MULTISERVICE_READ_OVERHEAD > self.connection_size:
                     request = WriteTagFragmentedRequestPacket.from_request(self._sequence, request)
                     fragmented_requests.append(request)
                 else:
